@@ -43,6 +43,7 @@ pub fn batches(prop: &str, tier: &str) -> Vec<(&'static str, u64)> {
         "C01" | "C02" | "C04" | "C07" => vec![("fault-free", t(120_000)), ("faults", t(80_000))],
         "C03" => vec![("fault-free", t(160_000)), ("user-faults", t(40_000))],
         "C10" => vec![("fine", t(100_000))],
+        "C09" => vec![("lifecycle", t(200_000))],
         "C13" => vec![("lending", t(50_000)), ("long-chains", t(150))],
         "C08" => vec![("mock-panics", t(100_000)), ("user-faults", t(60_000))],
         _ => vec![],
@@ -158,6 +159,7 @@ pub fn generate(prop: &str, base_seed: u64, batch: &str, run: u64) -> Scenario {
     match prop {
         "C01" | "C02" | "C03" | "C04" | "C07" => gen_coarse(prop, base_seed, batch, run, &mut rng),
         "C10" => crate::fine::gen_c10(base_seed, batch, run, &mut rng),
+        "C09" => crate::lifeworld::gen_c09(base_seed, batch, run, &mut rng),
         "C13" => crate::lifeworld::gen_c13(base_seed, batch, run, &mut rng),
         "C08" => crate::fine::gen_c08(base_seed, batch, run, &mut rng),
         other => panic!("no generator for {other}"),
@@ -309,6 +311,7 @@ pub fn check_in_process(scn: &Scenario) -> Checked {
     match scn.prop.as_str() {
         "C01" | "C02" | "C03" | "C04" | "C07" => check_coarse(scn),
         "C10" => crate::fine::check_c10(scn),
+        "C09" => crate::lifeworld::check_c09(scn),
         "C13" => crate::lifeworld::check_c13(scn),
         "C08" => crate::fine::check_c08(scn),
         other => Checked {
